@@ -194,7 +194,7 @@ fn ret_matches(ev: &SpecEv, ret: &Ret, tk: &Tokens) -> bool {
             let want = ev.ret.as_str().unwrap();
             match d {
                 None => want == "none",
-                Some(s) => want != "none" && *s == tk.val(want),
+                Some(s) => want != "none" && *s == tk.datum(want),
             }
         }
         (Call::NextId, Ret::Id(i)) => ev.ret.as_u64() == Some(*i as u64),
